@@ -214,6 +214,23 @@ def timeout_cases():
                    "driver": driver, "cf": cf, "via": via, "stream": name, "ghost": True}
 
 
+def big_timeout_cases():
+    """A receive timeout deep inside a large payload (at and around every 16 KiB of it), then the retry; the frame after it must still be found."""
+    for n in (65536, 65540, 70000, 131072, 140001, 200000):
+        for masked in (False, True):
+            specs = [{"fin": 1, "op": rm.BINARY, "p": {"rep": b"\x01\x02\x03\x05\x07", "n": n}, "key": K if masked else None}, {"fin": 1, "op": rm.TEXT, "p": b"next"}]
+            hdr = 10 + (4 if masked else 0)
+            marks = sorted({hdr + k * 16384 + d for k in range(0, n // 16384 + 1) for d in (-1, 0, 1, 7) if 0 < hdr + k * 16384 + d < hdr + n})
+            for di, (driver, cf) in enumerate((("data", False), ("recv", False), ("frame", False))):
+                # one timeout at a time ...
+                for mi, m in enumerate(marks):
+                    if (mi + di) % 3 == 0:
+                        yield {"frames": specs, "cuts": [m], "timeouts": [[1, 1 + mi % 2, (mi + di) % 4]], "driver": driver, "cf": cf, "via": "direct", "stream": f"big{n}"}
+                # ... and one before every 16 KiB block
+                cuts = [hdr + k * 16384 for k in range(1, n // 16384 + 1) if hdr + k * 16384 < hdr + n]
+                yield {"frames": specs, "cuts": cuts, "timeouts": [[i, 1, i % 3] for i in range(1, len(cuts) + 1)], "driver": driver, "cf": cf, "via": "direct", "stream": f"big{n}"}
+
+
 @st.composite
 def cases(draw):
     specs = draw(rx.legal_stream(max_msgs=3, big=draw(st.integers(0, 4)) == 0))
@@ -256,6 +273,7 @@ def jobs(tier, seed):
     n, shards = (2400, 8) if tier == "quick" else (144000, 16)
     out = [{"name": f"window-{i}", "kind": "window", "W": W, "shard": i, "of": 16} for i in range(16)]
     out.append({"name": "timeouts-every-position", "kind": "tpos"})
+    out += [{"name": f"timeouts-big-{k}", "kind": "tbig", "shard": k, "of": 4} for k in range(4)]
     out += [{"name": f"hyp-{i}", "kind": "hyp", "seed": seed * 1000 + i, "n": n // shards} for i in range(shards)]
     return out
 
@@ -266,6 +284,10 @@ def run_job(job, coll):
             if i % job["of"] == job["shard"]:
                 coll.check(c, run_case)
         coll.exhaustive[f"all cut subsets inside a {job['W']}-byte window of {len(SHORT_STREAMS)} streams"] = True
+    elif job["kind"] == "tbig":
+        for i, c in enumerate(big_timeout_cases()):
+            if i % job["of"] == job["shard"]:
+                coll.check(c, run_case)
     elif job["kind"] == "tpos":
         for c in timeout_cases():
             coll.check(c, run_case)
